@@ -375,8 +375,13 @@ class SgzConverter(SgzReader):
                         outfile.write(new_block)
             self.clear_variant_headers()
             self.read_variant_headers(include_padding=True)
-            for k, header_array in self.variant_headers.items():
-                header_bytes = header_array.tobytes()
+            # One array per footer slot, in table order: header words which duplicate another share its slot
+            footer_offsets = []
+            for k in self.stored_header_keys:
+                if self.segy_traceheader_template[k] in footer_offsets:
+                    continue
+                footer_offsets.append(self.segy_traceheader_template[k])
+                header_bytes = self.variant_headers[k].tobytes()
                 # Keep the footer stride which readers derive for this file version
                 header_bytes += bytes(self.padded_header_entry_length_bytes - len(header_bytes))
                 outfile.write(header_bytes)
